@@ -69,6 +69,17 @@ class Node(object):
                     i = ren["varnames"] % len(vs)
                     vs[i] = vs[i] + "\udc81"
                     kw["co_varnames"] = tuple(vs)
+            lt = g.get("line_tail")
+            if lt is not None:
+                # a hand-made trailing line-table entry past the last instruction (decodes as _additional_line):
+                # on 3.10 a "no line" range (lt == "noline") or a numbered one, before 3.10 an lnotab row at len(co_code)
+                if hasattr(c, "co_linetable"):
+                    kw["co_linetable"] = c.co_linetable + bytes([2, 0x80 if lt == "noline" else int(lt) & 0x7F])
+                else:
+                    addr = sum(c.co_lnotab[0::2])
+                    rest = len(c.co_code) - addr
+                    if 0 < rest <= 255:
+                        kw["co_lnotab"] = c.co_lnotab + bytes([rest, 1 if lt == "noline" else int(lt) & 0x7F])
             try:
                 c = replace_code(c, **kw)
             except Exception:
